@@ -22,6 +22,73 @@ import (
 func init() {
 	vRegister("l2_legacy0509", H_l2_legacy0509)
 	vRegister("l2_legacy0510", H_l2_legacy0510)
+	vRegister("l3_legacy", H_l3_legacy)
+}
+
+// vLegacyLoad0509 writes keys/values in a pre-0.5.10 layout and loads them.
+func vLegacyLoad0509(keys []string, vals []uint16, variant int, ver string) (*SlimTrie, error) {
+	t := vLegacyBuild(keys, variant&4 != 0)
+	hi := make([]uint16, len(t.childBM))
+	for i := range hi {
+		hi[i] = uint16(t.childFirst[i])
+	}
+	elts := make([]uint16, len(t.leafKey))
+	for i, k := range t.leafKey {
+		elts[i] = vals[k]
+	}
+	ch, stp, lv := vLegacyArrays(t, variant, hi, elts, encode.U16{})
+	st, _ := NewSlimTrie(encode.U16{}, nil, nil)
+	err := st.Unmarshal(vLegacyStream(ver, ch, stp, lv))
+	return st, err
+}
+
+// L3: concrete skeleton key sets through both writer models, symbolic query.
+func H_l3_legacy() {
+	c := &vT{enc: vEncU16}
+	c.keys = vSkeleton(vParam("skel"))
+	c.n = len(c.keys)
+	model := vParam("model") // 0: pre-0.5.10 (variant), 1: 0.5.10 layout (opt)
+	vConcreteValues(c, 0)
+	q := vString("q", vParam("lq"))
+	if model == 0 {
+		c.optc = 0
+		c.ret = make([]bool, c.n)
+		for i := range c.ret {
+			c.ret[i] = true
+		}
+		st, err := vLegacyLoad0509(c.keys, c.u16, vParam("variant"), "1.0.0")
+		vAssert(err == nil, "C06.load-ok")
+		if err != nil {
+			vAssume(false)
+		}
+		c.checkLegacyLoaded(st)
+		c.st = st
+		c.checkC10(q)
+	} else {
+		c.optc = vParam("opt")
+		c.build()
+		ref := c.st
+		old, err := NewSlimTrie(c.encoder(), c.keys, c.values(), vOptCase(c.optc))
+		vAssert(err == nil, "build-ok")
+		vTo0510(old.inner)
+		stream, _ := old.Marshal()
+		vSetVersion(stream, "0.5.10")
+		st, _ := NewSlimTrie(c.encoder(), nil, nil)
+		err = st.Unmarshal(stream)
+		vAssert(err == nil, "C06.load-ok")
+		if err != nil {
+			vAssume(false)
+		}
+		okG := true
+		for i := 0; i < c.n; i++ {
+			v, f := st.Get(c.keys[i])
+			okG = vAnd(okG, vImplies(c.ret[i], vAnd(f, c.valEq(v, i))))
+		}
+		vAssert(okG, "C06.get")
+		c.sameAnswers(ref, st, q, "C06.same")
+		vAssert(vDeepEqual(ref.Stat(), st.Stat()), "C06.stat")
+	}
+	vReach("end")
 }
 
 // ---------- G.1: layouts 0.5.0 … 0.5.9 ----------
